@@ -53,11 +53,17 @@ class Runner:
         self.events = set(case.get('events', []))
         ns = {}
         for i, (b, v) in enumerate(zip(case['bounds'], case['init'])):
-            ns[f'p{i}'] = param.Event() if i in self.events else param.Integer(default=v, bounds=(b[0], b[1]))
+            # bounds are installed after construction (see below), so that a held value may be invalid
+            ns[f'p{i}'] = param.Event() if i in self.events else param.Integer(default=v)
         self.cls = type('D', (param.Parameterized,), ns)
         # the same programs run on an instance or on the class itself (class-level watchers and assignment)
         self.on_class = case.get('level') == 'class'
         self.obj = self.cls if self.on_class else self.cls()
+        # setting `bounds` does not re-validate the value held: a later `trigger`/restore of that value
+        # is then rejected - the only way validation can fail inside `trigger`
+        for i, (nm, b) in enumerate(zip(self.names, case['bounds'])):
+            if i not in self.events:
+                self.obj.param[nm].bounds = (b[0], b[1])
         # the watchable Parameter attributes start at 0 (they default to None)
         for i, nm in enumerate(self.names):
             for k in self._slots_of(i):
@@ -313,7 +319,7 @@ def compare(impl, model):
 def gen_case(rng, prop, max_params=4, max_watchers=5, faults=False, size=8):
     n = rng.randint(1, max_params)
     bounds = [[0, 9] if rng.random() < 0.7 else [None, None] for _ in range(n)]
-    init = [rng.randint(0, 3) for _ in range(n)]
+    init = [rng.randint(0, 3) if not (faults and rng.random() < 0.12) else 12 for _ in range(n)]
     events = [i for i in range(n) if rng.random() < 0.2]
     for i in events:
         bounds[i], init[i] = [0, 1], 0
@@ -375,7 +381,10 @@ def gen_case(rng, prop, max_params=4, max_watchers=5, faults=False, size=8):
             return {'s': 'setSlot', 'p': p, 'k': 1 if p in events else rng.choice([1, 2]), 'v': rng.choice([0, 1, 1, 2, 3])}
         if k == 'update':
             ks = rng.sample(range(limit), rng.randint(1, min(limit, 3)))
-            return {'s': 'update', 'kvs': [[i, pv(i)] for i in ks]}
+            kvs = [[i, pv(i)] for i in ks]
+            if faults and rng.random() < 0.08:
+                kvs.insert(rng.randrange(len(kvs) + 1), [n, 1])          # an unknown name: ValueError
+            return {'s': 'update', 'kvs': kvs}
         if k == 'updateCtx':
             ks = rng.sample(range(limit), rng.randint(1, min(limit, 2)))
             return {'s': 'updateCtx', 'kvs': [[i, pv(i)] for i in ks], 'body': body(depth - 1, limit, in_body)}
